@@ -191,18 +191,40 @@ def one_program(rec, M, arch, rng):
             exc = res["exc"]
             rec.count("asm_exception")
             msg = str(exc)
+            tight = "tight" if itv_kind.startswith("exact") else itv_kind
+            where = "[%s] [%s layout, interval %s]" % (pcl, variant, tight)
+            if pcl == "pin not at the chain head":
+                # one mechanism, many symptoms (KeyError, TypeError, AssertionError, ValueError,
+                # no fixed point ...): the blocks before the pinned one are never placed
+                rec.count("nonhead_symptom:" + type(exc).__name__)
+                rec.fail("asm_resolve_final fails: pinned block not at the head of its chain",
+                         "%s: %r although a layout exists (%s)" % (res["stage"], exc, witness_note), wit)
+                return None
             if isinstance(exc, NoFixedPoint):
-                rec.fail("asmblock_final does not reach a fixed point [%s] [interval %s]" % (pcl, itv_kind),
+                rec.fail("asmblock_final does not reach a fixed point %s" % where,
                          "%s although a layout exists (%s)" % (exc, witness_note), wit)
+                return None
+            if isinstance(exc, ValueError) and msg.startswith("cannot asm"):
+                # the instruction encoder refused a resolved branch/operand
+                import re
+                m = re.search(r"\['(0x[0-9A-Fa-f]+)'\]", msg)
+                disp = int(m.group(1), 16) if m else None
+                if disp is not None and disp < 16:
+                    what = "cannot asm a branch whose displacement is below the instruction length"
+                else:
+                    what = "cannot asm a resolved instruction"
+                rec.fail("asm_resolve_final raises ValueError (%s) arch=%s" % (what, arch.mn.__name__),
+                         "%s: %r although a layout exists (%s)" % (res["stage"], exc, witness_note), wit)
                 return None
             if isinstance(exc, (RuntimeError, ValueError)) and msg:
                 import re
                 what = re.sub(r"0x[0-9a-fA-F]+|\b[0-9A-F]+\b", "N", msg)[:60]
             else:
                 what = "at " + _frame(exc)
-            rec.fail("asm_resolve_final raises %s (%s) [%s] [interval %s]" % (
-                type(exc).__name__, what, pcl, itv_kind),
-                "%s: %r although a layout exists (%s)" % (res["stage"], exc, witness_note), wit)
+            if pcl == "several pins in one chain" and "Multiples pinned" in msg:
+                where = "[%s]" % pcl
+            rec.fail("asm_resolve_final raises %s (%s) %s" % (type(exc).__name__, what, where),
+                     "%s: %r although a layout exists (%s)" % (res["stage"], exc, witness_note), wit)
             return None
 
         def fail(key, what):
@@ -230,7 +252,7 @@ def one_program(rec, M, arch, rng):
                  "parse_txt raised %r" % (exc,), dict(arch=arch.name, text=txt))
         return
     rec.count("chains", len(chains))
-    base = rng.choice([0x1000, 0x400000, 0x80, 0x10000])
+    base = rng.choice(arch.bases)
     pins, cur = {}, base
     for ch in chains:
         pins[ch[0]] = cur
@@ -271,7 +293,7 @@ def one_program(rec, M, arch, rng):
     # ---- compact variants: chains packed back to back with their witnessed sizes
     order = list(chains)
     rng.shuffle(order)
-    cbase = rng.choice([0x2000, 0x400, 0x7000000])
+    cbase = rng.choice(arch.cbases)
     pack, cur = {}, cbase
     for ch in order:
         delta = cur - addr[ch[0]]
